@@ -24,10 +24,10 @@ impl<T: OwnView> OwnView for Option<T> { open spec fn own(&self) -> Own { match 
 #[verifier::external_body] #[verifier::accept_recursive_types(A)] pub struct WeakTx<A> { p: core::marker::PhantomData<A> }
 #[verifier::external_body] #[verifier::accept_recursive_types(A)] pub struct ArcForceTx<A> { p: core::marker::PhantomData<A> }
 #[verifier::external_body] #[verifier::accept_recursive_types(A)] pub struct WeakForceTx<A> { p: core::marker::PhantomData<A> }
-impl<A> ArcTx<A> { pub uninterp spec fn chan(&self) -> int;
+impl<A> ArcTx<A> { pub uninterp spec fn chan(&self) -> int; pub uninterp spec fn code(&self) -> int;
     #[verifier::external_body] pub fn clone(&self) -> (r: Self) ensures r.chan() == self.chan() { unimplemented!() }
     #[verifier::external_body] pub fn downgrade(&self) -> (r: WeakTx<A>) ensures r.chan() == self.chan() { unimplemented!() } }
-impl<A> ArcForceTx<A> { pub uninterp spec fn chan(&self) -> int;
+impl<A> ArcForceTx<A> { pub uninterp spec fn chan(&self) -> int; pub uninterp spec fn code(&self) -> int;
     #[verifier::external_body] pub fn clone(&self) -> (r: Self) ensures r.chan() == self.chan() { unimplemented!() }
     #[verifier::external_body] pub fn downgrade(&self) -> (r: WeakForceTx<A>) ensures r.chan() == self.chan() { unimplemented!() } }
 impl<A> WeakTx<A> { pub uninterp spec fn chan(&self) -> int;
@@ -58,4 +58,16 @@ impl<T> BoxedFn<T> { pub uninterp spec fn cap0(&self) -> int; }
 impl<T> BoxNew<ClosureObj> for BoxedFn<T> {
     open spec fn boxed_ok(t: &ClosureObj, r: &Self) -> bool { r.captured() == t.captured() && r.code() == t.code() && r.cap0() == t.cap0() }
     #[verifier::external_body] fn box_new_(t: ClosureObj) -> (r: Self) { unimplemented!() }
+}
+
+// Arc::new(closure) for the two submit closures of a channel (rule T1): the Arc'd object is that closure literal over that queue
+pub trait ArcNew<T>: Sized { spec fn arc_ok(t: &T, r: &Self) -> bool; fn arc_new_(t: T) -> (r: Self) ensures Self::arc_ok(&t, &r); }
+pub fn arc_new<B: ArcNew<T>, T>(t: T) -> (r: B) ensures B::arc_ok(&t, &r) { B::arc_new_(t) }
+impl<A> ArcNew<ClosureObj> for ArcTx<A> {
+    open spec fn arc_ok(t: &ClosureObj, r: &Self) -> bool { r.chan() == t.cap0() && r.code() == t.code() }
+    #[verifier::external_body] fn arc_new_(t: ClosureObj) -> (r: Self) { unimplemented!() }
+}
+impl<A> ArcNew<ClosureObj> for ArcForceTx<A> {
+    open spec fn arc_ok(t: &ClosureObj, r: &Self) -> bool { r.chan() == t.cap0() && r.code() == t.code() }
+    #[verifier::external_body] fn arc_new_(t: ClosureObj) -> (r: Self) { unimplemented!() }
 }
